@@ -247,7 +247,7 @@ type Mismatch struct {
 }
 
 type Outcome struct {
-	Class           string     `json:"class"` // "" ok, race, result, history, input_modified, compile
+	Class           string     `json:"class"` // "" ok, race, result, history, input_modified, ownership, compile
 	Detail          string     `json:"detail,omitempty"`
 	Mismatches      []Mismatch `json:"mismatches,omitempty"`
 	RaceText        string     `json:"race_text,omitempty"`
@@ -329,8 +329,27 @@ func runConc(sc *Scenario, st *SiteTable, raceLog *raceLogReader) *Outcome {
 		re2, _ := compile(sc.Pattern, sc.Knobs)
 		res[1] = re2
 	}
-	for i := range sc.Warm {
-		execOp(re1, &sc.Warm[i], hb, hs)
+	if len(sc.Warm) > 0 {
+		// the warm-up runs under the simulator too (one worker, no preemption) so that the
+		// step budget applies: a call that never returns is a finding, not a hung shard
+		var warmRes []string
+		simrt.Run(simrt.Config{Policy: simrt.PolSerial, NumSites: len(st.Sites), MaxSteps: refRes.Steps*4 + 400000}, []func(){func() {
+			for i := range sc.Warm {
+				warmRes = append(warmRes, execOp(re1, &sc.Warm[i], hb, hs))
+			}
+		}})
+		for i, r := range warmRes {
+			if strings.Contains(r, "step budget exceeded") {
+				out.Class = "completion"
+				out.Detail = fmt.Sprintf("warm-up call %d (%s) did not return within 50x the step budget of the whole reference pass", i, sc.Warm[i].API)
+				return out
+			}
+		}
+		if own := ownershipViolations(re1); len(own) > 0 {
+			out.Class = "ownership"
+			out.Detail = "after the sequential warm-up: " + own[0]
+			return out
+		}
 	}
 
 	// 3. concurrent phase under the simulated scheduler and pool.
@@ -396,6 +415,10 @@ func runConc(sc *Scenario, st *SiteTable, raceLog *raceLogReader) *Outcome {
 			out.RaceText = raceLog.since()
 			out.Races = parseRaces(out.RaceText)
 		}
+	}
+	if own := ownershipViolations(res[0], res[1]); len(own) > 0 && out.Class == "" {
+		out.Class = "ownership"
+		out.Detail = own[0]
 	}
 	for i := range hb {
 		if !bytes.Equal(hb[i], orig[i]) || hs[i] != string(orig[i]) {
